@@ -63,8 +63,12 @@ func same(a, b result) string {
 	return ref9p.Diff(a.msg, b.msg)
 }
 
-const allocConst = 2048
 const allocFactor = 16
+
+// allocConst is the constant part of the allocation bound. Under the native
+// fuzzer other goroutines of the worker allocate concurrently, so the fuzz
+// targets raise it (a count-driven allocation is 1 MiB and up).
+var allocConst = 2048
 
 // tails used for the independence-of-later-bytes relation
 var tail1 = []byte{0xFF, 0xFF, 0xFF, 0xFF, 0xFF, 0xFF, 0xFF, 0xFF, 0xFF, 0xFF, 0xFF, 0xFF, 0xFF, 0xFF, 0xFF, 0xFF, 0xFF, 0xFF, 0xFF, 0xFF, 0xFF, 0xFF, 0xFF, 0xFF, 0xFF, 0xFF, 0xFF, 0xFF, 0xFF, 0xFF, 0xFF, 0xFF, 0xFF, 0xFF, 0xFF, 0xFF, 0xFF, 0xFF, 0xFF, 0xFF}
